@@ -268,6 +268,10 @@ pub(super) fn globsets_match(
     true
 }
 
+#[cfg(kani)]
+#[path = "/verif/harness/rip-tools/builtins__mod.rs"]
+mod verif_kani;
+
 #[cfg(test)]
 mod tests {
     use super::*;
